@@ -220,6 +220,8 @@ static std::string run_mt(std::vector<std::string> const &v)
 	if(th.size()>65) return "BAD-CASE";
 	sh.cache=cppcms::impl::thread_cache_factory(limit);
 	int before=tsan_reports;
+	tsan_kinds_len=0;
+	alarm(120);                  // a sequential (inline) run that never returns is killed: the check sees a crash on this case
 	for(size_t i=0;i<th.size();i++) {
 		th[i].sh=&sh;
 		th[i].res.resize(th[i].ops.size());
@@ -249,6 +251,7 @@ static std::string run_mt(std::vector<std::string> const &v)
 		for(size_t i=1;i<th.size();i++) pthread_join(th[i].tid,0);
 	}
 	sh.cache=0;                  // destroy the cache (del_ref under the lock)
+	alarm(0);
 	int reports=tsan_reports-before;
 	std::string out;
 	char buf[160];
